@@ -177,7 +177,10 @@ def run_one(req, np, cache):
                 fn = fn.py_func
             cache[key] = fn
         fn = cache[key]
-        args = [decode(a, np) for a in req['args']]
+        try:
+            args = [decode(a, np) for a in req['args']]
+        except BaseException as e:  # noqa: the input could not be built as a real object: not a finding
+            return {'ok': False, 'input_error': f'{type(e).__name__}: {e}'[:300]}
         if isinstance(fn, property):
             res = fn.fget(*args)
         else:
